@@ -434,6 +434,25 @@ def deep_wildcards(col, rng):
                               'assign(t, %r, NEW): %r ; target now %s, plain Python loops give %s' % (path, got if not got.ok else 'returned', short(t1, 300), short(t2, 300)), None)
 
 
+def missing_before_wildcard(col):
+    """missing= creates the absent segments in front of a wildcard; the wildcard then has no matches in the new container"""
+    cases = [
+        ({}, 'a.*.c', {'a': {}}),
+        ([{'q': 1}], '0.a.*.c', [{'q': 1, 'a': {}}]),
+        ({'a': {'x': {'c': 0}, 'y': {}}}, 'a.*.c', {'a': {'x': {'c': 5}, 'y': {'c': 5}}}),
+        ({'k': 1}, 'a.b.*.c', {'k': 1, 'a': {'b': {}}}),
+    ]
+    for target, path, want in cases:
+        import copy
+        t = copy.deepcopy(target)
+        got = call(assign, t, path, 5, missing=dict)
+        col.case(('missing-before-wildcard', path), True)
+        col.count('assignments_attempted')
+        if not got.ok or got.value is not t or t != want:
+            col.violation('C11/missing-before-wildcard', 'assign(%r, %r, 5, missing=dict): %r ; target now %r, expected %r'
+                          % (target, path, got if not got.ok else 'returned', t, want), None)
+
+
 def reused_assign_object(col, rng):
     """one Assign object evaluated several times (list spec): every evaluation assigns ITS value, with and without missing="""
     for missing in (None, dict):
@@ -477,5 +496,6 @@ def run(ctx):
         wildcard_order(col, rng)
         deep_wildcards(col, rng)
         reused_assign_object(col, rng)
+        missing_before_wildcard(col)
     for i in range(ctx.n(300, 3000)):
         one_target(col, rng)
